@@ -481,9 +481,13 @@ class KernelPCovR(_BasePCA, LinearModel):
         K_VV = self._get_kernel(X)
 
         if self.center:
+            # center the test-test kernel with the training mean in feature space
+            K_V = np.mean(K_VN, axis=1)
+            K_VV = (
+                K_VV - K_V[:, np.newaxis] - K_V[np.newaxis, :] + self.centerer_.K_fit_all_
+            ) / self.centerer_.scale_
             K_NN = self.centerer_.transform(K_NN)
             K_VN = self.centerer_.transform(K_VN)
-            K_VV = self.centerer_.transform(K_VV)
 
         y = K_VN @ self.pky_
         Lkrr = np.linalg.norm(Y - y) ** 2 / np.linalg.norm(Y) ** 2
